@@ -105,6 +105,22 @@ def handle (op : String) (args : List String) : Option String :=
       let sa ← parseHexBytes? sa; let da ← parseHexBytes? da
       let z := { z with stdAbbr := sa, dstAbbr := da }
       pure ("ok " ++ " ".intercalate (ws.map (localWall z)))
+  | "tzgen.ical.get", [h, t] => do
+      -- the TRANSLATED `_parse_rfc` followed by the TRANSLATED `tzical.get` / `keys`: index of the zone returned, and the keys
+      let s ← parseHexString? h
+      let tz : Option (List Char) ← (if t == "-" then some none else (parseHexString? t).map (fun x => some x.toList))
+      some (match Gen.tzical_parseRfc ICal.acceptAll s.toList with
+        | .error e => "err " ++ e.name
+        | .ok st => match Gen.tzical_get st.vtz tz, Gen.tzical_keys st.vtz with
+          | .error e, _ => "err " ++ e.name
+          | _, .error e => "err " ++ e.name
+          | .ok none, .ok ks => "ok none keys=" ++ Py.showList Ops.ICal.hexL ks
+          | .ok (some v), .ok ks => s!"ok {(st.vtz.findIdx? (fun w => w.tzid == v.tzid)).getD 999} keys=" ++ Py.showList Ops.ICal.hexL ks)
+  | "tzgen.ical.compinit", [f, t] => do
+      let f ← parseInt? f; let t ← parseInt? t
+      some (match Gen.tzicalvtzcomp_init f t false none none with
+        | .ok c => s!"ok {c.tzoffsetfrom} {c.tzoffsetto} {c.tzoffsetdiff}"
+        | .error e => "err " ++ e.name)
   | "tzgen.ical.rfc", [h] => do
       let s ← parseHexString? h
       some (match Gen.tzical_parseRfc ICal.acceptAll s.toList with
